@@ -130,8 +130,15 @@ func genSeq(c int64) seqFile {
 				kind = "transfer0"
 			case x < 0.83: // value > balance: invalid
 				to := evmdrive.Addr(keys[labels[rng.Intn(len(labels))]])
-				tx = evmdrive.SignedTx(k, nonce[l], &to, 5, 21000, 0, nil)
+				gas := uint64(21000)
 				kind = "inv-value"
+				if rng.Intn(2) == 0 {
+					// the same with a gas limit near the top of the range: whatever is bought for a transaction that
+					// is turned away afterwards must not be missing for later transactions, blocks or process lifetimes
+					gas = []uint64{^uint64(0), 1 << 63, 1<<63 - 1<<20, 1 << 62}[rng.Intn(4)]
+					kind = "inv-value-huge-gas"
+				}
+				tx = evmdrive.SignedTx(k, nonce[l], &to, 5, gas, 0, nil)
 			case x < 0.88: // stale nonce
 				to := evmdrive.Addr(keys[labels[rng.Intn(len(labels))]])
 				n := uint64(0)
